@@ -1,5 +1,6 @@
 import SplVerif.Driver.OpsDoc
 import SplVerif.Model.Net
+import SplVerif.Model.Table
 
 namespace Spl.Ops
 open Spl Spl.Wire Spl.Net
@@ -77,8 +78,44 @@ def judgeSchedules (diagOn : Bool) (ms : List NMsg) (count : Nat) : String := Id
     if (s.out.filter Out.isDocRelated).map outStrN != wantD then return s!"bad:doc-order-differs-under-schedule-{k}"
   return "ok"
 
+/-- Does the full document model (`AnalyzedSource::new` / `update`) predict a panic somewhere along the
+    history?  (known finding KF-C02-update-panic: the broker task then dies; the text property is judged
+    only on histories the tree layer survives) -/
+def histPanics : List NMsg → List (Nat × AnalyzedSource) → Bool
+  | [], _ => false
+  | m :: r, ds =>
+    match m with
+    | .open u t =>
+      (match AnalyzedSource.new t with
+       | .error _ => true
+       | .ok d => histPanics r ((u, d) :: ds.filter (fun e => e.1 != u)))
+    | .change u cs =>
+      (match ds.find? (fun e => e.1 == u) with
+       | none => histPanics r ds
+       | some (_, d) =>
+         match toTextChanges cs d.text with
+         | .error _ => true
+         | .ok (tcs, _) =>
+           match d.update tcs with
+           | .error _ => true
+           | .ok d' => histPanics r ((u, d') :: ds.filter (fun e => e.1 != u)))
+    | .close u => histPanics r (ds.filter (fun e => e.1 != u))
+    | _ => histPanics r ds
+
+def specNetText (d : String) (toks : List String) : Option String :=
+  (parseNet toks).map fun ms =>
+    let outs := seqRun netFns (d == "1") ([] : Docs Nat NText) ms
+    let probeIds := (toks.zipIdx.filter (fun (t, _) => t.startsWith "P")).map (·.2)
+    " ".intercalate ((outs.filter (fun o => match o with
+      | .resp id _ true => probeIds.contains id
+      | _ => false)).map outStrN)
+
 def netOps (op : String) (args : List String) (_impl : String) : Option String :=
   match op, args with
+  | "SPECDOCTEXT", d :: toks =>
+    -- the same judgement for short in-process histories through the real broker (C08); histories on which
+    -- the document model predicts a panic of the tree layer are not judged here
+    (parseNet toks).bind fun ms => if histPanics ms [] then some "n/a" else specNetText d toks
   | "SPECNETTEXT", d :: toks =>
     (parseNet toks).map fun ms =>
       let outs := seqRun netFns (d == "1") ([] : Docs Nat NText) ms
